@@ -100,11 +100,16 @@ func (i *imports) Imports() []Import {
 }
 
 func (i *imports) decorateImport(imp string) string {
-	for shortcut, path := range i.prefixes {
-		if strings.Index(imp, shortcut) == 0 {
-			return strings.Replace(imp, shortcut, path, 1)
-		}
+	// an alias stands for the whole first segment of the path,
+	// e.g. for {"viper": "github.com/spf13/viper"}:
+	// "viper" and "viper/remote" are decorated, "viperx" and "vip" are not
+	first, rest, hasRest := strings.Cut(imp, "/")
+	path, ok := i.prefixes[first]
+	if !ok {
+		return imp
 	}
-
-	return imp
+	if hasRest {
+		return path + "/" + rest
+	}
+	return path
 }
